@@ -9,6 +9,7 @@ import (
 	"github.com/lugu/qiloop/bus/net"
 	"github.com/lugu/qiloop/type/value"
 
+	"verif/rt/vnet"
 	"verif/rt/vrt"
 	"verif/scenarios/fx"
 	"verif/scenarios/reg"
@@ -140,10 +141,17 @@ var auths = []authKind{
 
 // sequences: an unauthenticated raw peer sends up to n frames, each followed
 // by quiescence (pipelined = false) or all back to back (pipelined = true).
-func sequences(n int, full, pipelined bool) func() {
+// transportNames: what the server sees as the textual identity of the remote
+// connection (it is "pipe://pipe" for the server's own in-process clients).
+var transportNames = []string{"", "pipe://pipe", "pipe://7:8", "unix:///tmp/sock", "tcp://127.0.0.1:9559"}
+
+func sequences(n int, full, pipelined bool, names ...bool) func() {
 	return func() {
 		ak := auths[vrt.ChooseFree(len(auths), "authenticator")]
 		w := fx.Start(ak.auth)
+		if len(names) > 0 && names[0] {
+			vnet.ServerString = transportNames[vrt.ChooseFree(len(transportNames), "transport-name")]
+		}
 		a := w.RawPeer()
 		a.StartDrain()
 		abc := alphabet(full)
@@ -257,12 +265,51 @@ func closedEarlier(seq []frame, i int) bool {
 	}
 	return false
 }
+// rejectWriteFails: the peer stopped reading (every write of the server on
+// that connection fails) but keeps sending: the refused connection must be
+// closed all the same, and nothing reaches a service.
+func rejectWriteFails() {
+	ak := auths[vrt.ChooseFree(len(auths), "authenticator")]
+	w := fx.Start(ak.auth)
+	a := w.RawPeer()
+	a.Raw.Peer().OnOp = func(kind string, idx int) *vnet.Fault {
+		if kind == "write" {
+			return &vnet.Fault{Kind: "werr"}
+		}
+		return nil
+	}
+	typ := []uint8{net.Call, net.Post}[vrt.ChooseFree(2, "type")]
+	bad := vrt.ChooseFree(2, "bad-authenticate-first") == 1
+	vrt.Explore()
+	if bad {
+		a.Send(net.Call, 0, 0, 8, a.NextID(), payload(pBad))
+		vrt.Quiesce()
+	}
+	for i := 0; i < 3; i++ {
+		a.Send(typ, 1, 1, 100, a.NextID(), fx.Int32(int32(5+i)))
+		vrt.Quiesce()
+	}
+	// with the accept-everything authenticator a bad-credentials frame still authenticates
+	authed := bad && ak.accept("u", "wrong")
+	if w.Root.Total() > 0 && !authed {
+		vrt.Failf("service-reached-unauthenticated/"+ak.name, "method bodies %v ran for a connection that never presented accepted credentials (its error answers cannot be written)", w.Root.Order)
+	}
+	if !authed && !a.Raw.Peer().Closed() {
+		vrt.Failf("unauthenticated-connection-not-closed/write-fails/"+ak.name, "the server did not close an unauthenticated connection whose error answer could not be written; it keeps reading from it")
+	}
+	fx.Settle()
+	vrt.Observe("%s typ=%d bad=%v closed=%v ran=%d", ak.name, typ, bad, a.Raw.Peer().Closed(), w.Root.Total())
+}
 
 func init() {
+	reg.Register(&reg.Scenario{Property: "C06", Name: "reject-answer-cannot-be-written", Body: rejectWriteFails, Quick: 1, Thorough: 2,
+		Doc: "the unauthenticated peer stopped reading (server writes fail, reads go on) and sends calls / posts to a service: the connection is closed, nothing is delivered"})
 	reg.Register(&reg.Scenario{Property: "C06", Name: "sequences-2", Body: sequences(2, false, false), Quick: 0, Thorough: 1,
 		Doc: "3 authenticators x all sequences of <=2 frames (reduced alphabet) from an unauthenticated peer, each step to quiescence; then a second unauthenticated connection", MustFlag: []string{"model-authenticated", "service-reached", "third-connection-authenticated"}})
 	reg.Register(&reg.Scenario{Property: "C06", Name: "single-full", Body: sequences(1, true, false), Quick: 1, Thorough: 2,
 		Doc: "3 authenticators x every single frame of the full alphabet (8 types x 11 targets (incl. the authenticate action id 8 on other services) x payload kinds)"})
+	reg.Register(&reg.Scenario{Property: "C06", Name: "single-transport-names", Body: sequences(1, false, false, true), Quick: 1, Thorough: 2,
+		Doc: "3 authenticators x 5 textual identities of the remote transport (as the server's stream prints it: in-memory, pipe://pipe like the server's own local clients, pipe://r:w, unix, tcp) x every single frame of the reduced alphabet"})
 	reg.Register(&reg.Scenario{Property: "C06", Name: "pipelined-2", Body: sequences(2, false, true), Quick: 0, Thorough: 1,
 		Doc: "as sequences-2 but both frames sent back to back (authenticate then call without waiting)", MustFlag: []string{"model-authenticated"}})
 	reg.Register(&reg.Scenario{Property: "C06", Name: "sequences-3", Body: sequences(3, false, false), Quick: -1, Thorough: 0,
